@@ -100,8 +100,41 @@ def _constructed(idx, fi, stmts, ev=None):
                 names.append("?")
         return names
 
+    def table_entry(call):
+        """`TABLE[key](...)` with TABLE a module-level dict literal: the value selected by the key under ev, or None"""
+        f = call.func
+        if not (isinstance(f, ast.Subscript) and isinstance(f.value, ast.Name)):
+            return None
+        r = idx.resolve_expr(fi.module, f.value, fi)
+        if r is None or r.kind != "value" or not isinstance(r.val, ast.Dict) or ev is None:
+            return None
+        try:
+            key = ev.val(f.slice)
+        except KeyError:
+            return None
+        for k_, v_ in zip(r.val.keys, r.val.values):
+            try:
+                if k_ is not None and ast.literal_eval(k_) == key:
+                    return v_
+            except (ValueError, SyntaxError):
+                return None
+        return None
+
     def visit(e):
         for x in pick(e):
+            if isinstance(x, ast.Call) and isinstance(x.func, ast.Subscript):
+                sel = table_entry(x)
+                if sel is None:
+                    out.append("?")  # a call through a table that cannot be read: something is constructed, it is not known what
+                elif isinstance(sel, ast.Lambda):
+                    visit(sel.body)
+                else:
+                    for cn in classes_of(sel):
+                        if cn in algs:
+                            out.append(cn)
+                for a_ in list(x.args) + [k.value for k in x.keywords]:
+                    visit(a_)
+                continue
             if isinstance(x, ast.Call):
                 for cn in classes_of(x.func):
                     if cn in algs or (cn == "?" and isinstance(x.func, ast.Name) and x.func.id in local):
@@ -148,7 +181,8 @@ def decision_table_of_function(idx, rule, fi):
                 stack.extend(ast.iter_child_nodes(n))
 
     deciders = [n for n in own_nodes(body) if isinstance(n, (ast.If, ast.Match, ast.IfExp))]
-    if not any(isinstance(n, (ast.If, ast.Match)) for n in deciders) and not any(isinstance(n, ast.IfExp) for n in deciders):
+    has_table = any(isinstance(n, ast.Call) and isinstance(n.func, ast.Subscript) and isinstance(n.func.value, ast.Name) for n in own_nodes(body))
+    if not any(isinstance(n, (ast.If, ast.Match)) for n in deciders) and not any(isinstance(n, ast.IfExp) for n in deciders) and not has_table:
         # the choice lives in a helper the rule calls: tabulate the helper instead
         for st in body:
             for c in [x for x in ast.walk(st) if isinstance(x, ast.Call)]:
@@ -176,6 +210,12 @@ def decision_table_of_function(idx, rule, fi):
     atoms = []
     for n in deciders:
         _atoms_of(n.subject if isinstance(n, ast.Match) else n.test, names, atoms)
+    # the key of a lookup in a module-level decision table (`TABLE[is_sa, small](...)`) decides as well
+    for n in own_nodes(body):
+        if isinstance(n, ast.Call) and isinstance(n.func, ast.Subscript) and isinstance(n.func.value, ast.Name):
+            r_ = idx.resolve_expr(fi.module, n.func.value, fi)
+            if r_ is not None and r_.kind == "value" and isinstance(r_.val, ast.Dict):
+                _atoms_of(n.func.slice, names, atoms)
     d.atoms = atoms
     if len(atoms) > 6:
         d.problems.append(f"{len(atoms)} atomic conditions: too many to tabulate")
